@@ -332,6 +332,8 @@ class DIP:
                     if node.keyword=='mod' and node.source[0].startswith(f"{self.name}_{STRING_SOURCE}"):
                         raise Exception(f"Modifying undefined node:",node.name)
                     target.nodes.append(node)
+        # Cases that are still open are closed by the end of the code
+        target.branching.state.clear()
         # Validate nodes
         for node in target.nodes:
             # Check if all declared nodes have assigned value
